@@ -151,9 +151,12 @@ def run(ctx):
         case["nko"] = data.draw(st.sampled_from([0, 0, 1, 2, 3]))
         n = len(case["params"])
         case["ko_defaults"] = [pos for pos in range(n) if data.draw(st.integers(0, 2)) == 0]  # applies to keyword-only positions only
-        if data.draw(st.integers(0, 3)) == 0 and case["npo"] == 0:
-            # a plain int parameter named like an axis, with a value unlike any bound size: it is not that axis
-            case["int_param"] = [data.draw(st.sampled_from(["n", "a", "b"])), 11]
+        sym_names = sorted({nm for e in case["params"] + ([case["ret"]] if case["ret"] else []) for t in (gc.tok_from_json(j) for j in e["tokens"])
+                            if t.base_kind == "sym" for nm in dl.expr_names(t.base) if nm.isascii()})
+        if data.draw(st.integers(0, 3 if not sym_names else 1)) == 0 and case["npo"] == 0:
+            # a plain int parameter named like an axis (preferably one that a symbolic expression mentions), with a value unlike any
+            # bound size: it is not that axis
+            case["int_param"] = [data.draw(st.sampled_from(sym_names + (["n", "a", "b"] if not sym_names else []))), 11]
         vo = gc.valid_orders(case)
         extra = []
         if len(vo) > 1:
